@@ -56,7 +56,7 @@ func modeFor(prop string) (*histMode, error) {
 			}}, nil
 	case "C02":
 		return &histMode{flavors: []string{"object", "array", "arraymove", "text", "counter", "mixed", "tree"}, twin: "nosnap",
-			gen: hist.GenConfig{MinClients: 2, MaxClients: 4, MinSteps: 10, MaxSteps: 40, Late: true, Detach: true, Inflight: true},
+			gen: hist.GenConfig{MinClients: 2, MaxClients: 4, MinSteps: 10, MaxSteps: 40, Late: true, Detach: true, Inflight: true, SnapJobs: true},
 			oracle: func(h *hist.History, o *hist.Outcome) []hist.Problem {
 				return append(baseOracle(h, o), hist.CheckConvergence(o)...)
 			}}, nil
@@ -65,7 +65,7 @@ func modeFor(prop string) (*histMode, error) {
 		// history has left must be what it answers from the store alone (cache purged); whether the
 		// store's snapshot + changes equal a replay of every change is C02's question, not this one
 		return &histMode{flavors: []string{"object", "array", "arraymove", "text", "counter", "mixed", "tree"}, smallSnap: true, serverDoc: true, cacheOnly: true,
-			gen:    hist.GenConfig{MinClients: 2, MaxClients: 4, MinSteps: 10, MaxSteps: 40, Late: true, Detach: true, Inflight: true},
+			gen:    hist.GenConfig{MinClients: 2, MaxClients: 4, MinSteps: 10, MaxSteps: 40, Late: true, Detach: true, Inflight: true, SnapJobs: true},
 			oracle: baseOracle}, nil
 	case "C03":
 		return &histMode{flavors: []string{"array", "arraymove", "text", "object", "mixed", "tree"}, twin: "nogc",
@@ -456,6 +456,9 @@ func runHist(cfg *config) error {
 		}
 		if len(res.Samples) < 2 {
 			res.Samples = append(res.Samples, map[string]any{"history": h, "final": o.Final})
+		}
+		if lastRun != nil && lastRun.SnapshotOvertaken > 0 {
+			res.Dist["pushes.overtaking-a-held-snapshot-job"] += lastRun.SnapshotOvertaken
 		}
 		if lastRun != nil && lastRun.SnapshotHeld > 0 {
 			res.Dist["compactions.with-a-snapshot-in-flight"] += lastRun.SnapshotHeld
